@@ -106,15 +106,21 @@ impl<T> Sender<T> {
         if self.shared.receiver_dropped.load(Ordering::Acquire) {
             return Err(SendError);
         }
+        #[cfg(scylla_verif)]
+        crate::verif::sched_point("mc:modify:after_receiver_dropped_load");
 
         let has_value = {
             let mut slot = self.shared.slot.lock().unwrap();
             f(&mut slot);
             slot.is_some()
         };
+        #[cfg(scylla_verif)]
+        crate::verif::sched_point("mc:modify:after_slot");
 
         if has_value {
             self.shared.notify.notify_one();
+            #[cfg(scylla_verif)]
+            crate::verif::sched_point("mc:modify:after_notify");
         }
         Ok(())
     }
@@ -124,8 +130,14 @@ impl<T> Drop for Sender<T> {
     fn drop(&mut self) {
         // The flag must be set before notifying, so that a receiver woken by
         // this notification is guaranteed to observe it.
+        #[cfg(scylla_verif)]
+        crate::verif::sched_point("mc:sender_drop:before_store");
         self.shared.sender_dropped.store(true, Ordering::Release);
+        #[cfg(scylla_verif)]
+        crate::verif::sched_point("mc:sender_drop:after_store");
         self.shared.notify.notify_one();
+        #[cfg(scylla_verif)]
+        crate::verif::sched_point("mc:sender_drop:after_notify");
     }
 }
 
@@ -133,6 +145,8 @@ impl<T> Receiver<T> {
     /// Takes the pending value without waiting.
     #[cfg_attr(not(test), expect(dead_code,))]
     pub(crate) fn try_recv(&mut self) -> Option<T> {
+        #[cfg(scylla_verif)]
+        crate::verif::sched_point("mc:try_recv:before_take");
         self.shared.slot.lock().unwrap().take()
     }
 
@@ -152,18 +166,31 @@ impl<T> Receiver<T> {
         // `&mut self` receiver.
         let shared: &Shared<T> = &self.shared;
         let take = || shared.slot.lock().unwrap().take();
+        #[cfg(scylla_verif)]
+        let take = || {
+            crate::verif::sched_point("mc:recv:before_take");
+            let value = take();
+            crate::verif::sched_point("mc:recv:after_take");
+            value
+        };
 
         loop {
             let mut notified = std::pin::pin!(shared.notify.notified());
             // Register in the wait list *before* looking at the slot, so that a
             // concurrent `modify` either is seen below or wakes us up.
             notified.as_mut().enable();
+            #[cfg(scylla_verif)]
+            crate::verif::sched_point("mc:recv:after_enable");
 
             if let Some(value) = take() {
                 return Some(value);
             }
 
+            #[cfg(scylla_verif)]
+            crate::verif::sched_point("mc:recv:before_sender_dropped_load");
             if shared.sender_dropped.load(Ordering::Acquire) {
+                #[cfg(scylla_verif)]
+                crate::verif::sched_point("mc:recv:after_sender_dropped_load");
                 // The sender fills the slot before setting the flag, but we
                 // read the slot before the flag - so re-check it once more to
                 // avoid losing that last update.
@@ -178,6 +205,40 @@ impl<T> Receiver<T> {
 impl<T> Drop for Receiver<T> {
     fn drop(&mut self) {
         self.shared.receiver_dropped.store(true, Ordering::Release);
+    }
+}
+
+/// Public re-export of the channel endpoints for direct driving by a
+/// simulation harness; every method delegates to the real implementation.
+#[cfg(scylla_verif)]
+#[allow(unreachable_pub, missing_docs)]
+pub(crate) mod verif_api {
+    use super::{Receiver, Sender, merge_channel};
+
+    pub struct VerifMergeSender<T>(Sender<T>);
+    pub struct VerifMergeReceiver<T>(Receiver<T>);
+
+    pub fn verif_merge_channel<T>() -> (VerifMergeSender<T>, VerifMergeReceiver<T>) {
+        let (tx, rx) = merge_channel();
+        (VerifMergeSender(tx), VerifMergeReceiver(rx))
+    }
+
+    impl<T> VerifMergeSender<T> {
+        /// `Err(())` iff the receiver has been dropped.
+        #[allow(clippy::result_unit_err)]
+        pub fn modify<F: FnOnce(&mut Option<T>)>(&mut self, f: F) -> Result<(), ()> {
+            self.0.modify(f).map_err(|_| ())
+        }
+    }
+
+    impl<T> VerifMergeReceiver<T> {
+        pub fn try_recv(&mut self) -> Option<T> {
+            self.0.try_recv()
+        }
+
+        pub async fn recv(&mut self) -> Option<T> {
+            self.0.recv().await
+        }
     }
 }
 
